@@ -71,7 +71,14 @@ func (m *FixPeriodPlanner) Process(ctx *shared.PlannerContext,
 
 	go func() {
 		defer close(res)
-		defer shared.TamePanic(res)
+		defer func() {
+			// recover() only works when called directly by the deferred function
+			if err := recover(); err != nil {
+				// nobody reads the upstream any more: let its producers finish
+				shared.Drain(_in)
+				shared.ReportPanic(err, res)
+			}
+		}()
 		first := true
 		for entries := range _in {
 			for _, entry := range entries {
